@@ -108,6 +108,34 @@ def permute_reactive(rng, desc, keep_inductors_sorted):
         for i, c in zip(ls, srt): comps[i] = c
     return dict(desc, comps=comps)
 
+VARY_FACTORS = [2.0, 0.5, 4.0, 0.25, 8.0, 1.5, 0.75, 3.0, 0.125, 6.0, 0.375, 16.0]
+
+def vary_values(rng, desc):
+    """the same description (ids, nodes, listing order, source values) with every R, L, C multiplied
+    by a distinct dyadic factor — what a process-level cache keyed without values would confuse"""
+    fs = list(VARY_FACTORS); rng.shuffle(fs)
+    comps = []
+    k = 0
+    for c in desc['comps']:
+        c = dict(c)
+        if c['kind'] in ('R', 'C', 'L'):
+            c['val'] = c['val'] * fs[k % len(fs)]; k += 1
+        comps.append(c)
+    return dict(desc, comps=comps)
+
+def run_sequence(out, extra_canon, descs, check):
+    """run `check` on the descriptions in order (same process) with the canon flag
+    `same_ids_different_values`; every failure found carries the whole sequence for the replay"""
+    n0 = len(out.spec_failures)
+    extra_canon['same_ids_different_values'] = True
+    try:
+        for d in descs:
+            check(d)
+    finally:
+        extra_canon.clear()
+    for sf in out.spec_failures[n0:]:
+        sf['sequence'] = list(descs)
+
 def all_reactive_orders(desc):
     comps = desc['comps']
     slots = [i for i, c in enumerate(comps) if c['kind'] in REACTIVE]
